@@ -6,6 +6,7 @@ package main
 
 import (
 	"fmt"
+	"go/token"
 	"go/types"
 	"sort"
 	"strings"
@@ -411,5 +412,67 @@ func checkEffectTableComplete(c *Ctx) {
 	}
 	if nMethods < 40 {
 		c.Violate("R0.1", "expected:boundary-methods", "repository", fmt.Sprintf("%d interface methods found at the storage boundary (reference 60+)", nMethods))
+	}
+}
+
+// checkSentinelsBare (R0.2): error sentinels of the module that callers test with ==/!= are
+// never handed out wrapped by module code (the == test would silently stop matching).
+func checkSentinelsBare(c *Ctx, names ...string) {
+	w := c.W
+	c.Doc("R0.2", "an error sentinel of the module that some caller tests with == or != is never wrapped (fmt.Errorf, errors.Wrap, errors.WithMessage …) by module code: a wrapped sentinel no longer compares equal, and the branch that recognises the situation (no user attached, no matching operation, clock missing, ref not found) is silently replaced by the generic failure branch")
+	want := map[string]bool{}
+	for _, n := range names {
+		want[n] = true
+	}
+	sentinelOf := func(v ssa.Value) string {
+		if u, isU := stripConv(v).(*ssa.UnOp); isU {
+			if g, isG := u.X.(*ssa.Global); isG && want[g.Name()] && g.Pkg != nil && strings.HasPrefix(g.Pkg.Pkg.Path(), modPath) {
+				return g.Name()
+			}
+		}
+		return ""
+	}
+	compared := map[string]string{}
+	wrapped := map[string]string{}
+	for _, f := range w.ModFns {
+		if isInstance(f) || w.isTestHelper(f) {
+			continue
+		}
+		for _, b := range f.Blocks {
+			for _, ins := range b.Instrs {
+				switch x := ins.(type) {
+				case *ssa.BinOp:
+					if x.Op == token.EQL || x.Op == token.NEQ {
+						for _, s := range []string{sentinelOf(x.X), sentinelOf(x.Y)} {
+							if s != "" && compared[s] == "" {
+								compared[s] = w.InstrPos(x)
+							}
+						}
+					}
+				case *ssa.Call:
+					n, _ := callName(x.Common())
+					if !(n == "fmt.Errorf" || strings.Contains(n, "errors.Wrap") || strings.Contains(n, "errors.WithMessage") || strings.Contains(n, "errors.WithStack") || n == "errors.Join") {
+						continue
+					}
+					c.Sites++
+					args := append([]ssa.Value{}, x.Common().Args...)
+					if len(args) > 0 {
+						args = append(args, variadicOperands(args[len(args)-1])...)
+					}
+					for _, a := range args {
+						if s := sentinelOf(a); s != "" {
+							wrapped[s] = w.InstrPos(x)
+						}
+					}
+				}
+			}
+		}
+	}
+	for _, n := range names {
+		if compared[n] == "" {
+			c.Info("R0.2", "sentinel:"+n, "module", "not compared with == anywhere")
+			continue
+		}
+		c.Check(wrapped[n] == "", "R0.2", "sentinel:"+n, compared[n], "tested with ==, never wrapped by module code", "the sentinel "+n+" is wrapped at "+wrapped[n]+" while "+compared[n]+" (and possibly others) tests for it with ==: that test no longer recognises the situation")
 	}
 }
